@@ -78,6 +78,11 @@ func startGetTraversal(
 		NodeFilter: s.TraversalNodeFilter,
 	})
 	nodes, err := s.TraversalStartingNodes()
+	if err != nil {
+		// Nobody will run this traversal; don't leave its goroutine behind.
+		op.Stop()
+		return
+	}
 	op.AddNodes(nodes)
 	return
 }
